@@ -374,3 +374,46 @@ impl PD {
         Ok(p)
     }
 }
+
+impl PD {
+    /// Jones polynomial for a given orientation choice of the over-only components
+    pub fn jones_with(&self, free_choice: u64) -> Result<Laurent, String> {
+        let n = self.n();
+        if n > 22 { return Err("too many crossings for the state sum".into()) }
+        let signs = self.signs(free_choice)?;
+        let (np, nm) = (signs.iter().filter(|&&s| s > 0).count() as i64, signs.iter().filter(|&&s| s < 0).count() as i64);
+        // bracket part does not depend on the orientation
+        let j0 = self.jones()?;
+        let s0 = self.signs(0)?;
+        let (np0, nm0) = (s0.iter().filter(|&&s| s > 0).count() as i64, s0.iter().filter(|&&s| s < 0).count() as i64);
+        let shift = (np - 2 * nm) - (np0 - 2 * nm0);
+        let flip = (nm - nm0).rem_euclid(2) == 1;
+        Ok(j0.into_iter().map(|(e, c)| (e + shift, if flip { -c } else { c })).collect())
+    }
+
+    /// the diagram obtained by the orientation-preserving smoothing of crossing k (None if a free circle splits off)
+    pub fn smooth_oriented(&self, k: usize) -> Option<(PD, bool)> {
+        let signs = self.signs(0).ok()?;
+        let bit = signs[k] < 0; // positive -> 0-smoothing, negative -> 1-smoothing
+        let arcs = self.smoothing(k, bit);
+        let c = self.x[k];
+        let mut f: HashMap<usize, usize> = HashMap::new();
+        for (a, b) in arcs {
+            if c[a] == c[b] { return None }
+            f.insert(c[b], c[a]);
+        }
+        // the two merged labels must be distinct classes
+        let mut x = vec![];
+        let mut neg = vec![];
+        for (i, cr) in self.x.iter().enumerate() {
+            if i == k { continue }
+            x.push(cr.map(|e| { let mut e = e; let mut guard = 0; while let Some(&g) = f.get(&e) { e = g; guard += 1; if guard > 4 { break } } e }));
+            neg.push(self.neg[i]);
+        }
+        let p = PD { x, neg };
+        if p.ends().values().any(|v| v.len() != 2) { return None }
+        Some((p, bit))
+    }
+}
+
+pub fn laurent_invert(a: &Laurent) -> Laurent { a.iter().map(|(e, c)| (-e, c.clone())).collect() }
